@@ -75,7 +75,10 @@ func getCacheMaxAge(header http.Header) int {
 	// 如果有设置了 age 字段，则最大缓存时长减少
 	if age := header.Get(headerAge); age != "" {
 		v, _ := strconv.Atoi(age)
-		maxAge -= v
+		// age只可能大于等于0，小于0的为无效值，忽略
+		if v > 0 {
+			maxAge -= v
+		}
 	}
 
 	return maxAge
